@@ -415,10 +415,13 @@ def rot_ok(r):
 
 
 # ---- rotations (jnp for tracing; the same formulas on object arrays for the equivariance axioms)
-def rot_matrix(r, xp=jnp):
+def rot_matrix(r, xp=jnp, axis='z'):
+    """(c, s) -> rotation about the coordinate axis `axis` (z: in-plane); 4 parameters -> rotation of a unit quaternion"""
     if r.shape == (2,):
         c, s = r[0], r[1]
-        rows = [[c, -s, 0.0], [s, c, 0.0], [0.0, 0.0, 1.0]]
+        rows = {'z': [[c, -s, 0.0], [s, c, 0.0], [0.0, 0.0, 1.0]],
+                'x': [[1.0, 0.0, 0.0], [0.0, c, -s], [0.0, s, c]],
+                'y': [[c, 0.0, s], [0.0, 1.0, 0.0], [-s, 0.0, c]]}[axis]
     else:
         a, b, c, d = r[0], r[1], r[2], r[3]
         rows = [[a * a + b * b - c * c - d * d, 2 * (b * c - a * d), 2 * (b * d + a * c)],
@@ -714,7 +717,7 @@ def _validate(fn, cj, sampler, seed, n, rtol=1e-8):
     return worst, slack_used
 
 
-def mk_case(h, body, args, sampler, label, cond='uf', patch=stubs, nval=2, merge_rot=None, merge_cap=20, equivariant=False):
+def mk_case(h, body, args, sampler, label, cond='uf', patch=stubs, nval=2, merge_rot=None, merge_cap=20, equivariant=False, rot_axis='z'):
     """Case whose jaxpr is traced with `patch` active; validation and replay run the unpatched function.
     merge_rot = name of the rotation input: tensor-UF applications whose arguments are proved equal under |rot|^2 = 1
     share their outputs (each such cut lemma is registered as a query of its own)."""
@@ -739,7 +742,7 @@ def mk_case(h, body, args, sampler, label, cond='uf', patch=stubs, nval=2, merge
             point += [(v_, z3.RealVal('%d/%d' % pq)) for v_, pq in zip(va, vals)]
         ctx.c08_merge = dict(base=[sum(x * x for x in rv.ravel()) == 1], cap=merge_cap, log=[], lemmas=[], point=point)
         if equivariant:
-            ctx.c08_merge['Q'] = rot_matrix(rv, xp=onp)
+            ctx.c08_merge['Q'] = rot_matrix(rv, xp=onp, axis=rot_axis)
     _Switch.patch = patch
     try:
         c = Case(h, fn, args, validate=0, ctx=ctx, label=label)
@@ -780,7 +783,7 @@ NOTE_ROT = 'float re-evaluation of a solver model accepts |q|^2 = 1 within 1e-9 
 
 
 # =========================================================================================== O1 / O2 generic driver
-def _sym_case(h, m, what, full, state, batch=False, quat=None, entry='energy'):
+def _sym_case(h, m, what, full, state, batch=False, quat=None, entry='energy', axis='z'):
     """what: 'left' W(QF) = W(F)  |  'right' W(F Q^T) = W(F) with the reference-side transformation of the auxiliaries"""
     quat = full if quat is None else quat
     with quiet():
@@ -796,7 +799,7 @@ def _sym_case(h, m, what, full, state, batch=False, quat=None, entry='energy'):
         a = dict(zip(names, arrs))
         mat = m.make(a['mod'])
         H = a['H'] if full else embed(a['h'])
-        Q = rot_matrix(a['rot'])
+        Q = rot_matrix(a['rot'], axis=axis)
         a2 = dict(a)
         if what == 'left':
             H2 = Q @ (H + jnp.eye(3)) - jnp.eye(3)
@@ -830,8 +833,9 @@ def _sym_case(h, m, what, full, state, batch=False, quat=None, entry='energy'):
         else:
             r = onp.array([onp.cos(t), onp.sin(t)])
         return [0.1 * rng.normal(size=(3, 3) if full else (2, 2)), r, m.sample(rng)] + aux_sample(m, [n for n, _ in aux], st0, rng)
-    label = '%s%s:%s:%s%s' % (m.key, '' if entry == 'energy' else '.' + entry, what, 'SO3' if quat else ('3x3_inplane' if full else 'inplane'), ':vmap2' if batch else '')
-    c = mk_case(h, body, ex, sampler, label, cond='elastic' if elastic_out else 'uf', merge_rot='rot', equivariant=(what == 'right'))
+    label = '%s%s:%s:%s%s' % (m.key, '' if entry == 'energy' else '.' + entry, what, 'SO3' if quat else (('3x3_inplane' if full else 'inplane') if axis == 'z' else '3x3_about_' + axis), ':vmap2' if batch else '')
+    c = mk_case(h, body, ex, sampler, label, cond='elastic' if elastic_out else 'uf', merge_rot='rot', equivariant=(what == 'right'), rot_axis=axis)
+    c.rot_axis = axis
 
     def spec(i, o):
         asm = [rot_ok(i['rot']), v_lt(0.0, det3(F_of(i)))] + m.admissible(i['mod']) + aux_assumes(m, i)
@@ -843,7 +847,7 @@ def _sym_case(h, m, what, full, state, batch=False, quat=None, entry='energy'):
 
 def _equivariance(c):
     """instances f(Q A Q^T) = Q f(A) Q^T for every ordered pair of applications of the same tensor function"""
-    Q = rot_matrix(c.inp['rot'], xp=onp)
+    Q = rot_matrix(c.inp['rot'], xp=onp, axis=getattr(c, 'rot_axis', 'z'))
     QT = Q.T
     apps = getattr(c.ctx, 'c08_apps', [])
     ax = []
@@ -940,17 +944,17 @@ def _common_notes(h, m, with_tuf=True):
     h.outside('rounding error of the float evaluation; XLA compilation of the jaxpr')
 
 
-def _run_symmetry(h, keys, what, full, state, cap, batch=False, order=('core', 'nlsat'), quat=None):
+def _run_symmetry(h, keys, what, full, state, cap, batch=False, order=('core', 'nlsat'), quat=None, axis='z'):
     for key in keys:
         key, entry = (key, 'energy') if isinstance(key, str) else key
-        qname = key if entry == 'energy' else '%s.%s' % (key, entry)
+        qname = (key if entry == 'energy' else '%s.%s' % (key, entry)) + ('' if axis == 'z' else '@' + axis)
         if _skip(h, qname):
             continue
         m = model(key)
         _common_notes(h, m)
         if entry != 'energy':
             h.encoded('%s.create_material_model_functions -> %s' % (m.enc[0].__module__, ENTRY_ATTR[entry]))
-        c, spec = _sym_case(h, m, what, full, state, batch=batch, quat=quat, entry=entry)
+        c, spec = _sym_case(h, m, what, full, state, batch=batch, quat=quat, entry=entry, axis=axis)
         extra = list(getattr(c.ctx, 'c08_elastic', []))
         if what == 'right':
             extra += _equivariance(c)
@@ -996,6 +1000,37 @@ def o2_3x3(h):
     h.bounds(BOUNDS_3X3.replace('inelastic state: all 9 (27) entries free, eqps >= 0', 'inelastic state: virgin'))
     h.assume_note(NOTE_EQV, NOTE_ELASTIC)
     _run_symmetry(h, FINITE_PLAIN + FINITE_STATE + ['multibranch_hyperviscoelastic'], 'right', True, 'virgin', cap=120, quat=False)
+
+
+BOUNDS_OOP = BOUNDS_3X3.replace('Q = in-plane rotation (c, s)', 'Q = rotation about the x axis and about the y axis, (c, s)')
+
+
+@obligation(P, 'O1.objectivity_3x3_out_of_plane_rotation', cap=600)
+def o1_oop(h):
+    """W(Q(H+I) - I) = W(H) for every rotation about the x axis and every rotation about the y axis (rotations that leave
+    the x-y plane) and every fully three-dimensional H with det F > 0, symbolic moduli and internal state: reaches terms
+    that are exact on block-diagonal (plane-strain / axisymmetric) F only, e.g. a determinant taken as in-plane minor
+    times out-of-plane stretch"""
+    h.bounds(BOUNDS_OOP)
+    for ax in ('x', 'y'):
+        _run_symmetry(h, FINITE_PLAIN + FINITE_STATE, 'left', True, 'symbolic', cap=120, quat=False, axis=ax)
+
+
+@obligation(P, 'O1.objectivity_3x3_out_of_plane_rotation_multibranch', cap=600)
+def o1_oop_mb(h):
+    """same for the 3-branch viscoelastic model (27 state entries free)"""
+    h.bounds(BOUNDS_OOP)
+    for ax in ('x', 'y'):
+        _run_symmetry(h, ['multibranch_hyperviscoelastic'], 'left', True, 'symbolic', cap=200, quat=False, axis=ax)
+
+
+@obligation(P, 'O2.isotropy_3x3_out_of_plane_rotation', cap=600)
+def o2_oop(h):
+    """W((H+I) Q^T - I) = W(H) (grad phase -> Q grad phase) for every rotation about x and about y, free 3x3 H, virgin state"""
+    h.bounds(BOUNDS_OOP.replace('inelastic state: all 9 (27) entries free, eqps >= 0', 'inelastic state: virgin'))
+    h.assume_note(NOTE_EQV, NOTE_ELASTIC)
+    for ax in ('x', 'y'):
+        _run_symmetry(h, FINITE_PLAIN + FINITE_STATE + ['multibranch_hyperviscoelastic'], 'right', True, 'virgin', cap=120, quat=False, axis=ax)
 
 
 @obligation(P, 'O1.objectivity_SO3', tiers=('thorough',), cap=1200)
@@ -1070,6 +1105,35 @@ def _kirchhoff(h, keys, full, cap):
             asm = [v_lt(0.0, det3(F_of(i)))] + m.admissible(i['mod'])
             return asm, Eq([o[0, 1], o[0, 2], o[1, 2]], [o[1, 0], o[2, 0], o[2, 1]], scale=m.scale(i['mod']))
         _prove(c, m, m.key, spec, cap=cap)
+
+
+@obligation(P, 'O3.kirchhoff_symmetric_visco_equilibrium', cap=300)
+def o3_visco_eq(h):
+    """the equilibrium (compressible neo-Hookean) part `_eq_strain_energy` of HyperViscoelastic and of
+    MultiBranchHyperViscoelastic, as a function of a fully three-dimensional H (det F > 0) and symbolic props:
+    tau = (dW_eq/dH)(H+I)^T is symmetric (jaxpr of jax.grad).  The non-equilibrium branches go through the custom JVP of
+    the eigen-decomposition and are not part of this obligation."""
+    from optimism.material import HyperViscoelastic, MultiBranchHyperViscoelastic
+    h.bounds('H: free 3x3 (9 reals) with det(H+I) > 0; props (K, G, branch moduli and relaxation times): all positive reals')
+    h.outside('Kirchhoff symmetry of the full viscoelastic energy (spectral log strain): covered by C10/C12, not here')
+    for key, module in (('hyperviscoelastic', HyperViscoelastic), ('multibranch_hyperviscoelastic', MultiBranchHyperViscoelastic)):
+        qname = key + '._eq_strain_energy'
+        if _skip(h, qname):
+            continue
+        m = model(key)
+        h.encoded(module._eq_strain_energy)
+        h.assume_note(NOTE_REALS, NOTE_UF, NOTE_DET)
+
+        def body(H, mod, module=module):
+            Pk = jax.grad(lambda Hh: module._eq_strain_energy(Hh, mod))(H)
+            return Pk @ (H + jnp.eye(3)).T
+        ex = {'H': 0.1 * onp.ones((3, 3)), 'mod': onp.array(m.example)}
+        c = mk_case(h, body, ex, lambda rng, m=m: [0.1 * rng.normal(size=(3, 3)), m.sample(rng)], '%s:kirchhoff:3x3' % qname, patch=det_by_closed_form)
+
+        def spec(i, o, m=m):
+            asm = [v_lt(0.0, det3(F_of(i)))] + m.admissible(i['mod'])
+            return asm, Eq([o[0, 1], o[0, 2], o[1, 2]], [o[1, 0], o[2, 0], o[2, 1]], scale=m.scale(i['mod']))
+        _prove(c, m, qname, spec, cap=120)
 
 
 @obligation(P, 'O3.kirchhoff_symmetric', cap=300)
@@ -1246,7 +1310,7 @@ def o4_j2_rate(h):
 # dissipation, not an energy density) is outside the property: see DESIGNED_NOT_REGISTERED.
 PF_L, PF_S = 'phasefield_threshold[large deformations]', 'phasefield_threshold[small deformations]'
 EXTRA_FINITE = [(PF_L, e) for e in ENTRY_POINTS['pf']]
-BOUNDS_ENTRY = ('entry points: PhaseFieldThreshold compute_output_energy_density / compute_strain_energy_density / compute_phase_potential_density / compute_state_new[0] '
+BOUNDS_ENTRY = ('rotations about each coordinate axis (z in-plane, x, y); entry points: PhaseFieldThreshold compute_output_energy_density / compute_strain_energy_density / compute_phase_potential_density / compute_state_new[0] '
                 '(the stored strain energy density); the MaterialModel tuples of the other modules expose no energy density besides compute_energy_density; ')
 
 
@@ -1258,7 +1322,8 @@ def o5_objectivity_pf(h):
     state_new[0]): free 3x3 H with det F > 0 (contains the plane-strain block form), every in-plane rotation, symbolic
     moduli, phase, grad phase"""
     h.bounds(BOUNDS_ENTRY + BOUNDS_3X3)
-    _run_symmetry(h, EXTRA_PF, 'left', True, 'symbolic', cap=120, quat=False)
+    for ax in ('z', 'x', 'y'):
+        _run_symmetry(h, EXTRA_PF, 'left', True, 'symbolic', cap=120, quat=False, axis=ax)
 
 
 @obligation(P, 'O5.entry_points_isotropy', cap=500)
@@ -1266,7 +1331,8 @@ def o5_isotropy(h):
     """f((H+I) Q^T - I) = f(H) (grad phase -> Q grad phase; virgin viscous state) for the same entry points"""
     h.bounds(BOUNDS_ENTRY + BOUNDS_3X3.replace('inelastic state: all 9 (27) entries free, eqps >= 0', 'inelastic state: virgin'))
     h.assume_note(NOTE_EQV)
-    _run_symmetry(h, EXTRA_FINITE, 'right', True, 'virgin', cap=120, quat=False)
+    for ax in ('z', 'x', 'y'):
+        _run_symmetry(h, EXTRA_FINITE, 'right', True, 'virgin', cap=120, quat=False, axis=ax)
 
 
 @obligation(P, 'O5.entry_points_objectivity_SO3', tiers=('thorough',), cap=1200)
